@@ -842,10 +842,26 @@ def _consume(ctx, r):
     return cases, lines, impls
 
 
+def run_corpus(ctx):
+    """inputs that needed care while the check was built (corpus/C22/*.json), run first"""
+    import glob
+    import json
+    import os
+    for f in sorted(glob.glob(os.path.join(env.VERIF, "corpus", "C22", "*.json"))):
+        case = json.load(open(f))
+        r = replay(ctx, case)
+        ctx.case(dict(corpus=os.path.basename(f)), nontrivial=True)
+        ctx.count("corpus")
+        ctx.traces += 1
+        if not r["agree"]:
+            ctx.mismatch(case, r["impl"], r["model"], line="corpus:" + os.path.basename(f))
+
+
 def run(ctx, nworlds=None):
     import os
     os.chdir(env.scratch())       # a prefix-less specifier may be tried as a relative branch location
     check_plugins(ctx)
+    run_corpus(ctx)
     pure_merge_sort(ctx, ctx.pick(1500, 12000))
     nworlds = nworlds or ctx.pick(56, 400)
     per = dict(iter=ctx.pick(40, 120), spec=ctx.pick(140, 400), malformed=ctx.pick(14, 40))
